@@ -120,7 +120,6 @@ let verdict_of (c : parsed) (impl : string list) : string =
            | Fails cl -> (match int_of_n cl with 1 -> "fails:C08-burn-not-covered" | _ -> "fails:-"))
         | _ -> "fails:-")
      | _ -> "fails:-")
-  | "panic" :: _ -> "fails:-"
   | _ -> "na"
 
 let serve () =
